@@ -595,6 +595,17 @@ def oracle_arith(ctx: Ctx, lines):
             continue
         p, q = CLS[ws[1]](int(ws[2])), CLS[ws[3]](int(ws[4]))
         case = {"line": line}
+        # periods are values: `r += k` / `r -= k` rebind the name, they never move a period other references still hold
+        try:
+            held, r = p, p
+            r += 3
+            r -= 1
+            if held.serial != int(ws[2]) or p.serial != int(ws[2]) or r.serial != int(ws[2]) + 2 or type(r) is not type(p):
+                ctx.fail("period-mutated-by-augmented-assignment", case, f"after r = p; r += 3; r -= 1: p is {p!r}, r is {r!r}")
+                continue
+        except Exception as e:
+            ctx.fail("period-arithmetic", case, f"augmented assignment raises {e!r}")
+            continue
         ctx.evaluations += 1
         if ws[1] != ws[3]:
             for name, f in (("-", lambda: p - q), ("==", lambda: p == q), ("!=", lambda: p != q), ("<", lambda: p < q),
